@@ -83,14 +83,27 @@ def fresh_result(D, tops):
     return in_fresh_process(fn)
 
 
+class RuleError(Exception):
+    """a user pass's own exception type: two required constructor arguments, message composed from them (it cannot be rebuilt from e.args)"""
+    def __init__(self, module, rule):
+        super().__init__(f"module {module} breaks rule {rule}")
+        self.module, self.rule = module, rule
+
+
 def make_inject(h, base_cls, target, msg):
     state = {"armed": True}
+
+    def boom():
+        # half of the injected failures are of the user's own exception type
+        if sum(map(ord, msg)) % 2:
+            raise RuleError(target, msg)
+        raise ValueError(msg)
     if base_cls is None:
         class Inject(h.elab.ElabPass):
             def elaborate_module(self, module):
                 if state["armed"] and module.name == target:
                     state["armed"] = False
-                    raise ValueError(msg)
+                    boom()
                 return module
         return Inject
     cls = type("Failing" + base_cls.__name__, (base_cls,), {})
@@ -99,7 +112,7 @@ def make_inject(h, base_cls, target, msg):
         out = base_cls.elaborate_module(self, module)
         if state["armed"] and module.name == target:
             state["armed"] = False
-            raise ValueError(msg)
+            boom()
         return out
     cls.elaborate_module = elaborate_module
     return cls
@@ -301,6 +314,60 @@ def gen_caught_case(args):
     return [], calls
 
 
+def gen_uncached_case(args):
+    """a generator made with enable_cache=False raises while a cached generator that called it is in progress (and once on its own first);
+    repeating the cached call must report that same error - not a circular dependency -, and return once the cause is repaired"""
+    tid, _ = args
+    from ..hd import h
+    state = {"broken": True}
+
+    @h.paramclass
+    class P:
+        a = h.Param(dtype=int, desc="a", default=1)
+
+    @h.generator(enable_cache=False)
+    def Helper(p: P) -> h.Module:
+        if state["broken"]:
+            raise KeyError("helper setting missing")
+        m = h.Module()
+        m.s = h.Signal()
+        return m
+
+    @h.generator
+    def Plain(p: P) -> h.Module:
+        m = h.Module()
+        m.t = h.Signal()
+        return m
+
+    @h.generator
+    def Block(p: P) -> h.Module:
+        m = h.Module()
+        m.i = Helper(p)()
+        return m
+    calls = []
+
+    def one(label, fn, fresh_raises, tainted=True):
+        ev = {"tid": tid, "seq": len(calls) + 1, "label": label, "tainted": tainted, "raised": False, "sig": "", "digest": "", "tops": [],
+              "fresh_raised": fresh_raises, "fresh_sig": "KeyError: 'helper setting missing'" if fresh_raises else "", "fresh_digest": "", "full": ""}
+        try:
+            pkg = h.to_proto(fn())
+            ev["digest"] = ev["fresh_digest"] = str(len(pkg.modules))
+        except Exception as ex:
+            ev["raised"] = True
+            ev["sig"] = f"{type(ex).__name__}: {str(ex)[:100]}"
+        calls.append(ev)
+    one("first", lambda: Helper(a=3), True)                            # an un-cached failure at top level
+    one("retry", lambda: Block(a=1), True)                             # ... then a cached generator failing through the helper
+    one("unrelated", lambda: Plain(a=1), False, tainted=False)
+    one("retry", lambda: Block(a=1), True)
+    one("retry", lambda: Block(a=2), True)
+    state["broken"] = False
+    one("repair_retry", lambda: Block(a=1), False)
+    one("repair_retry", lambda: Block(a=2), False)
+    one("repair_retry", lambda: Helper(a=3), False)
+    return [], calls
+
+
 def run(tier, seed, replay_file=None):
     o = Outcome(PID, tier, seed, level="fault_enumeration")
     o.rule = ("fault sequences: 4 DAG shapes x every module x failure source {exception injected before pass position i, inside pass i after its rewrite "
@@ -341,7 +408,8 @@ def run(tier, seed, replay_file=None):
         base = len(cases)
         gout = pool.map(gen_case, [(base + k, v) for k, v in enumerate(["inner", "outer", "nested"])], chunksize=1)
         gout += pool.map(gen_caught_case, [(base + 3, "caught")], chunksize=1)
-    gcases = [{"generator": v} for v in ["inner", "outer", "nested", "caught"]]
+        gout += pool.map(gen_uncached_case, [(base + 4, "uncached")], chunksize=1)
+    gcases = [{"generator": v} for v in ["inner", "outer", "nested", "caught", "uncached"]]
     traces = [t for t, _ in out]
     calls = [c for _, c in out] + [c for _, c in gout]
     allcases = cases + gcases
